@@ -29,7 +29,7 @@ func init() {
 			"non-trivial = the value has at least one non-empty collection or block; distinct by encoded source hash",
 		Assumptions: []string{"nil and empty slices/maps are the same value; strings are compared after NFC normalisation (HCL strings are NFC by definition)", "gocty conversions between Go and cty values"},
 		Quick:       Plan{Batches: 16, PerBatch: 1500, MinNonTrivial: 10000},
-		Thorough:    Plan{Batches: 64, PerBatch: 12000, MinNonTrivial: 300000},
+		Thorough:    Plan{Batches: 64, PerBatch: 24000, MinNonTrivial: 300000},
 		Case:        c16Case,
 	})
 }
